@@ -112,9 +112,17 @@ def chol (R : Mat α) : Option (Mat α) :=
       fun (l11, l21, l22, l31, l32, l33) => [[l11, zero, zero], [l21, l22, zero], [l31, l32, l33]]
   | _ => cholGen R
 
+/-- `np.fill_diagonal(R, 1)`: `get_correlation` reports 0 even on the diagonal for a value with
+    zero uncertainty; the code restores the unit diagonal before it tests / factorises -/
+def unitDiag (R : Mat α) : Mat α :=
+  (List.zip (List.range R.length) R).map fun (i, row) =>
+    (List.zip (List.range row.length) row).map fun (j, x) => if i = j then one else x
+
 /-- the factor the offsets are multiplied with, and whether the fallback warning is issued:
-    no correlations ⇒ I; positive definite ⇒ chol R; otherwise I + warning -/
-def factor (R : Mat α) : Mat α × Bool :=
+    no correlations ⇒ I; positive definite ⇒ chol R; otherwise I + warning
+    (`R` is the matrix of `get_correlation` values; the diagonal is set to one first) -/
+def factor (R0 : Mat α) : Mat α × Bool :=
+  let R := unitDiag R0
   if offDiagAllZero R then (identity R.length, false)
   else match chol R with
     | some L => (L, false)
